@@ -176,6 +176,15 @@ def run(tier):
         for target in ("/dev/full", os.path.join(wd, "no-such-dir", "x.bin")):
             add(prog, valid, [], "-Pbad", "FILE", {"target": target})
             add(prog, valid, [], "-Pbad", "stdin", {"target": target})
+    # the printed outputs (-p, -p -c, -b, -r) with a standard output that cannot take them (a full device, a closed descriptor): the
+    # requested output did not succeed, the exit status must be non-zero
+    for prog, valid in progs[:5]:
+        for ok in ("-p", "-pc", "-b", "-pb"):
+            for how in ("full", "closed"):
+                add(prog, valid, rnd.choice(flagsets), ok, rnd.choice(["FILE", "stdin"]), {"c": 8, "stdout_to": how})
+    for body, want in execs[:2]:
+        for how in ("full", "closed"):
+            add(body, True, [], "-r", "FILE", {"want": want, "stdout_to": how})
     # ---- reference via the driver (library under the corresponding option calls)
     refcases, refkey = [], {}
     for j in jobs:
@@ -269,7 +278,17 @@ def run(tier):
         if common._hangs[0] >= common.HANG_LIMIT:  # circuit breaker (vlib/common.py): the hangs seen so far are violations already
             return {"rc": "skipped", "stdout": b"", "stderr": b"", "file": None, "argv": args}
         try:
-            if j["src"] == "FILE":
+            if j.get("stdout_to"):
+                so = open("/dev/full", "wb") if j["stdout_to"] == "full" else None
+                try:
+                    r = subprocess.run(args + ([src] if j["src"] == "FILE" else []), stdout=so, stderr=subprocess.PIPE, env=env, timeout=30,
+                                       input=None if j["src"] == "FILE" else text.encode(), stdin=subprocess.DEVNULL if j["src"] == "FILE" else None,
+                                       preexec_fn=None if so else (lambda: os.close(1)))
+                finally:
+                    if so:
+                        so.close()
+                r.stdout = b""
+            elif j["src"] == "FILE":
                 argv = ([args[0], src] + args[1:]) if j.get("file_first") else (args + [src])
                 r = subprocess.run(argv, capture_output=True, env=env, timeout=30, stdin=subprocess.DEVNULL)
             elif j.get("pieces"):
@@ -317,7 +336,7 @@ def run(tier):
         v.count()
         stats["by_output"][j["out"]] = stats["by_output"].get(j["out"], 0) + 1
         R = ref[j["ref"]]
-        case = {"key": "asmline %s %s <%s> prog=%s" % (" ".join(j["flags"]), j["out"], j["src"], "; ".join(j["prog"])[:120]), "fam": "asmline", "out": j["out"], "src": j["src"],
+        case = {"key": "asmline %s %s%s <%s> prog=%s" % (" ".join(j["flags"]), j["out"], " >" + j["stdout_to"] if j.get("stdout_to") else "", j["src"], "; ".join(j["prog"])[:120]), "fam": "asmline", "out": j["out"], "src": j["src"],
                 "flags": j["flags"], "argv": o["argv"], "program": j["prog"], "c": j.get("c"), "final_newline": j["final_newline"]}
         if R is None:
             v.violation(case, "reference-crashed", None)
@@ -334,7 +353,7 @@ def run(tier):
             v.violation(case, "reference-crashed", None)
             continue
         lib_ok = R["rc"] == 0
-        should_succeed = lib_ok and j["out"] not in ("-Pbad", "-usage")
+        should_succeed = lib_ok and j["out"] not in ("-Pbad", "-usage") and not j.get("stdout_to")
         stats["exit0" if o["rc"] == 0 else "exit_nonzero"] += 1
         if (o["rc"] == 0) != should_succeed:
             v.violation(case, "exit-status:%d-but-%s" % (o["rc"], "should-succeed" if should_succeed else "should-fail"), err[-400:])
@@ -381,7 +400,7 @@ def run(tier):
             if v.cov["evaluations"] % 400 == 1:
                 v.sample({"argv": o["argv"], "source": j["src"], "program": j["prog"][:4], "exit": o["rc"], "stdout": out[:80] if k not in ("-Pstdout",) else o["stdout"].hex()[:80]})
     v.cov["rule"] = ("asmline (tools/asmline.c built with ASan+UBSan from the working tree) vs the library driven through the corresponding documented option calls: seeded programs (valid, with option-sensitive probe lines, "
-                     "with one invalid line, executable ones returning values up to 2^64-1, empty / blank / comment-only programs, programs of 100-3000 (thorough: 6000) lines) x every mode flag and non-conflicting flag pairs x outputs {-p, -P file, -P /dev/stdout, -o, -c N (binary), -p -c N, -b N, -p -b N, -r, -r=0/2/3/100, --return[=5], unwritable -P; chunk sizes 4..10^6; options before or after FILE} x {FILE, stdin, stdin delivered in pieces of 1 / 7 / 40 / 4096 bytes}. "
+                     "with one invalid line, executable ones returning values up to 2^64-1, empty / blank / comment-only programs, programs of 100-3000 (thorough: 6000) lines) x every mode flag and non-conflicting flag pairs x outputs {-p, -P file, -P /dev/stdout, -o, -c N (binary), -p -c N, -b N, -p -b N, -r, -r=0/2/3/100, --return[=5], unwritable -P, printed outputs to a full / closed standard output; chunk sizes 4..10^6; options before or after FILE} x {FILE, stdin, stdin delivered in pieces of 1 / 7 / 40 / 4096 bytes}. "
                      "Binary outputs must equal the library bytes, -p the hex rows per instruction (chunk rows with -c), -b the library count, -r the value the code returns; exit status 0 iff assembly and output succeeded")
     v.cov["exhaustive"] = False
     v.cov.update(stats)
